@@ -275,7 +275,9 @@ def cfdm_reads(fn, cases, rows, configs):
                 continue
             observe(f, c, mask, out)
             if not mask:
-                out["applied"] = attempt(lambda: f.apply_masking().array)
+                g0 = f.apply_masking()
+                out["applied"] = attempt(lambda: g0.array)
+                out["applied_again"] = attempt(lambda: g0.array)      # after the returned array was overwritten
                 out["applied_inplace"] = attempt(lambda: (lambda g: (g.apply_masking(inplace=True), g)[1])(f.copy()).array)
                 out["unchanged"] = attempt(lambda: f.array) == out["whole"]
 
@@ -361,7 +363,8 @@ def write_geom(nc, c):
     nc.createDimension(node, 13)
     nc.createDimension(part, 4)
     g = nc.createVariable(f"geom{i}", "i4", ())
-    g.setncatts({"geometry_type": "polygon", "node_coordinates": f"x{i} y{i}", "coordinates": f"lon{i} lat{i}",
+    g.setncatts({"geometry_type": "polygon", "node_coordinates": f"x{i} y{i}" + (f" z{i}" if c.get("z") else ""),
+                 "coordinates": f"lon{i} lat{i}",
                  "node_count": f"nc{i}", "part_node_count": f"pnc{i}", "interior_ring": f"ir{i}"})
     for nm, vals in (("nc", GEOM["node_count"]), ("pnc", GEOM["part_node_count"])):
         v = nc.createVariable(f"{nm}{i}", "i4", (inst if nm == "nc" else part,))
@@ -374,6 +377,8 @@ def write_geom(nc, c):
         if nm in ("lon", "lat"):
             extra = {"long_name": f"{nm}{i}", "nodes": f"{'x' if nm == 'lon' else 'y'}{i}"}
         put_var(nc, f"{nm}{i}", var, (dim,), extra)
+    if c.get("z"):
+        put_var(nc, f"z{i}", c["z"], (node,), {"axis": "Z", "long_name": f"z{i}"})
     f = nc.createVariable(f"c{i}", "f8", (inst,))
     f.setncatts({"long_name": f"c{i}", "coordinates": f"lon{i} lat{i}", "geometry": f"geom{i}"})
     f[...] = [1.0, 2.0]
@@ -509,7 +514,9 @@ def cfdm_reads_multi(fn, cases, rows, configs):
             try:
                 out["all"] = all_arrays(f)
                 if not mask:
-                    out["applied"] = all_arrays(f.apply_masking())
+                    g0 = f.apply_masking()
+                    out["applied"] = all_arrays(g0)
+                    out["applied_again"] = all_arrays(g0)      # after the returned arrays were overwritten
                     g = f.copy()
                     g.apply_masking(inplace=True)
                     out["applied_inplace"] = all_arrays(g)
